@@ -66,7 +66,7 @@ LiveSpec == MCInit /\ [][MCNext]_vars /\ \A c \in Callers : WF_vars(CallerStep(c
 AllDone == \A c \in Callers : pc[c] = "done"
 End == [a |-> "End"]
 Finish ==
-  /\ AllDone /\ Record /\ hist[Len(hist)] # End
+  /\ AllDone /\ Record /\ hist[Len(hist)].a # "End"
   /\ hist' = Append(hist, End)
   /\ UNCHANGED <<now, mult, notBefore, pc, ctxEnd, ctxDone, until, result, lastResp, n,
                  lastPost, minNext, askUntil, waitAt>>
@@ -81,6 +81,6 @@ SimNext ==
         \/ \E r \in {SimResp(c)} : Post(c, r)
   \/ Advance
   \/ Finish
-ExportFinished == (Record /\ Len(hist) > 1 /\ hist[Len(hist)] = End) =>
+ExportFinished == (Record /\ Len(hist) > 1 /\ hist[Len(hist)].a = "End") =>
                      PrintT(<<"BEH", ToJson(SubSeq(hist, 1, Len(hist) - 1))>>)
 =============================================================================
